@@ -630,6 +630,7 @@ where
                 continue;
             }
             Some(_) => {
+                let delivered_before = src.delivered();
                 let mut recorder = crate::path_map::PathRecorder::new();
                 let value_res = crate::anchor_store::with_document_scope(|| {
                     T::deserialize(crate::de::YamlDeserializer::new_with_path_recorder(
@@ -659,6 +660,10 @@ where
                             crop_radius,
                         ));
                     }
+                }
+                // A target that read nothing has left its document where it was.
+                if src.delivered() == delivered_before && !src.skip_to_next_document() {
+                    break;
                 }
             }
             None => break,
@@ -869,6 +874,7 @@ where
                         continue;
                     }
                     Ok(Some(_)) => {
+                        let delivered_before = self.src.delivered();
                         let mut recorder = crate::path_map::PathRecorder::new();
                         let value_res = crate::anchor_store::with_document_scope(|| {
                             T::deserialize(crate::de::YamlDeserializer::new_with_path_recorder(
@@ -888,6 +894,12 @@ where
                                 return Some(Err(e));
                             }
                         };
+                        // A target that read nothing has left its document where it was.
+                        if self.src.delivered() == delivered_before
+                            && !self.src.skip_to_next_document()
+                        {
+                            self.finished = true;
+                        }
 
                         match Validate::validate(&value) {
                             Ok(()) => return Some(Ok(value)),
@@ -1031,6 +1043,7 @@ where
                 continue;
             }
             Some(_) => {
+                let delivered_before = src.delivered();
                 let mut recorder = crate::path_map::PathRecorder::new();
                 let value_res = crate::anchor_store::with_document_scope(|| {
                     T::deserialize(crate::de::YamlDeserializer::new_with_path_recorder(
@@ -1060,6 +1073,10 @@ where
                             crop_radius,
                         ));
                     }
+                }
+                // A target that read nothing has left its document where it was.
+                if src.delivered() == delivered_before && !src.skip_to_next_document() {
+                    break;
                 }
             }
             None => break,
@@ -1260,6 +1277,7 @@ where
                         continue;
                     }
                     Ok(Some(_)) => {
+                        let delivered_before = self.src.delivered();
                         let mut recorder = crate::path_map::PathRecorder::new();
                         let value_res = crate::anchor_store::with_document_scope(|| {
                             T::deserialize(crate::de::YamlDeserializer::new_with_path_recorder(
@@ -1279,6 +1297,12 @@ where
                                 return Some(Err(e));
                             }
                         };
+                        // A target that read nothing has left its document where it was.
+                        if self.src.delivered() == delivered_before
+                            && !self.src.skip_to_next_document()
+                        {
+                            self.finished = true;
+                        }
 
                         match ValidatorValidate::validate(&value) {
                             Ok(()) => return Some(Ok(value)),
@@ -1453,6 +1477,7 @@ pub fn from_multiple_with_options<T: DeserializeOwned>(
                 continue;
             }
             Some(_) => {
+                let delivered_before = src.delivered();
                 let value_res = crate::anchor_store::with_document_scope(|| {
                     T::deserialize(crate::de::YamlDeserializer::new(&mut src, cfg))
                 });
@@ -1461,6 +1486,10 @@ pub fn from_multiple_with_options<T: DeserializeOwned>(
                     Err(e) => return Err(maybe_with_snippet(e, input, with_snippet, crop_radius)),
                 };
                 values.push(value);
+                // A target that read nothing has left its document where it was.
+                if src.delivered() == delivered_before && !src.skip_to_next_document() {
+                    break;
+                }
             }
             None => break,
         }
@@ -2019,13 +2048,16 @@ where
                         continue;
                     }
                     Ok(Some(_)) => {
+                        let delivered_before = self.src.delivered();
                         let res = crate::anchor_store::with_document_scope(|| {
                             T::deserialize(crate::de::YamlDeserializer::new(
                                 &mut self.src,
                                 self.cfg,
                             ))
                         });
-                        if res.is_err() {
+                        // An error, or a target that read nothing (its document is still where
+                        // it was): step over the rest of the document.
+                        if res.is_err() || self.src.delivered() == delivered_before {
                             // After a deserialization error, skip remaining events in the
                             // current document and try to recover at the next document boundary.
                             // If no next document is found, mark as finished.
